@@ -363,4 +363,88 @@ Section ApiFacts.
     match type of H with (let (_, _) := alloc ?hh ?nn in _) = _ => destruct (alloc hh nn) as [h2 f] eqn:Ea2 end.
     leaf. eapply grows_trans; eapply alloc_grows; eauto.
   Qed.
+  (* ---------------- remove / set markings, the API dispatch, remove_custom_stix ---------------- *)
+  Lemma remove_loop_keeps : forall t sel ms b h h',
+    b <= t -> remove_loop t sel ms h = Some h' -> keeps b h h'.
+  Proof.
+    induction ms as [|m rest IH]; simpl; intros b h h' Hb H.
+    - inversion H. apply keeps_refl.
+    - dalloc H as h1 d Ea.
+      destruct (append_item h1 t (VR d)) as [h2|] eqn:Eap; [|discriminate].
+      eapply keeps_trans; [apply grows_keeps; eapply alloc_grows; eauto|].
+      eapply keeps_trans; [eapply (wrote_keeps b t); [|eapply append_item_wrote]; eauto|]. eauto.
+  Qed.
+
+  Lemma granular_remove_grows : forall obj marking selectors h h' res,
+    granular_remove vt W obj marking selectors h = (h', res) -> grows h h'.
+  Proof.
+    unfold granular_remove, bindv. intros obj marking selectors h h' res H.
+    match type of H with (if ?c then _ else _) = _ => destruct c end; [leaf|].
+    match type of H with context [expand_markings ?o h] => destruct (expand_markings o h) as [h1 r1] eqn:E1 end.
+    assert (K1 : keeps (length h) h h1) by (apply grows_keeps; eapply expand_markings_grows; eauto).
+    destruct r1 as [e| |]; try (kleaf K1; fail).
+    match type of H with (let (_, _) := ?x in _) = _ => destruct x as [h2 sel] eqn:E2 end.
+    assert (K2 : keeps (length h) h h2).
+    { case_in E2.
+      - inversion E2; subst; auto.
+      - destruct (alloc h1 (NList [selectors])) as [hh l] eqn:Ea. inversion E2; subst.
+        eapply keeps_alloc; eauto. }
+    dalloc H as h3 t Ea3.
+    assert (Ht := alloc_fresh _ _ _ _ _ K2 Ea3).
+    assert (K3 := keeps_alloc _ _ _ _ _ _ K2 Ea3).
+    match type of H with (match ?x with _ => _ end) = _ => destruct x as [h4|] eqn:E4 end; [|kleaf K3].
+    assert (K4 : keeps (length h) h h4) by (eapply keeps_trans; [exact K3|]; eapply remove_loop_keeps; eauto).
+    destruct (expand_markings (VR t) h4) as [h5 r5] eqn:E5.
+    assert (K5 : keeps (length h) h h5) by (eapply keeps_then_grows; [exact K4|]; eapply expand_markings_grows; eauto).
+    destruct r5 as [r| |]; try (kleaf K5; fail).
+    match type of H with (if ?c then _ else _) = _ => destruct c end; [kleaf K5|].
+    dalloc H as h6 k Ea6.
+    assert (K6 := keeps_alloc _ _ _ _ _ _ K5 Ea6).
+    destruct (compress_markings (VR k) h6) as [h7 r7] eqn:E7.
+    assert (K7 : keeps (length h) h h7) by (eapply keeps_then_grows; [exact K6|]; eapply compress_markings_grows; eauto).
+    destruct r7; try (kleaf K7; fail).
+    apply keeps_grows. eapply keeps_then_grows; [exact K7|]. eapply new_version_gm_grows; eauto.
+  Qed.
+
+  Lemma granular_set_grows : forall obj marking selectors h h' res,
+    granular_set vt W obj marking selectors h = (h', res) -> grows h h'.
+  Proof.
+    unfold granular_set, bindv. intros obj marking selectors h h' res H.
+    destruct (granular_clear vt W obj selectors h) as [h1 r1] eqn:E1.
+    assert (G1 := granular_clear_grows _ _ _ _ _ E1).
+    destruct r1; try leaf. eapply grows_trans; [exact G1|]. eapply granular_add_grows; eauto.
+  Qed.
+
+  Lemma object_set_grows : forall obj marking h h' res,
+    object_set vt W obj marking h = (h', res) -> grows h h'.
+  Proof.
+    unfold object_set, bindv. intros obj marking h h' res H.
+    destruct (object_clear vt W obj h) as [h1 r1] eqn:E1.
+    assert (G1 := object_clear_grows _ _ _ _ E1).
+    destruct r1; try leaf. eapply grows_trans; [exact G1|]. eapply object_add_grows; eauto.
+  Qed.
+
+  Lemma api_markings_grows : forall fn obj marking selectors h h' res,
+    api_markings vt W fn obj marking selectors h = (h', res) -> grows h h'.
+  Proof.
+    unfold api_markings. intros fn obj marking selectors h h' res H.
+    destruct fn; destruct (is_none selectors);
+      eauto using object_set_grows, granular_set_grows, object_remove_grows, granular_remove_grows,
+                  object_add_grows, granular_add_grows, object_clear_grows, granular_clear_grows;
+      try leaf.
+    - destruct (mapping_get h obj (u "object_marking_refs")); [leaf|].
+      destruct (alloc h (NList [])) as [h1 l] eqn:Ea. leaf. eapply alloc_grows; eauto.
+    - destruct (alloc h (NList [])) as [h1 l] eqn:Ea. leaf. eapply alloc_grows; eauto.
+  Qed.
+
+  Lemma remove_custom_stix_grows : forall obj h h' res,
+    remove_custom_stix vt W obj h = (h', res) -> grows h h'.
+  Proof.
+    unfold remove_custom_stix. intros obj h h' res H.
+    destruct (mapping_entries h obj) as [m|]; [|leaf].
+    destruct (assoc (u "type") m) as [[[| | |ty|]|]|]; try leaf.
+    match type of H with (if ?c then _ else _) = _ => destruct c end; [leaf|].
+    match type of H with (if ?c then _ else _) = _ => destruct c end; [leaf|].
+    eapply new_version_grows; eauto.
+  Qed.
 End ApiFacts.
